@@ -670,6 +670,18 @@ def rule_tree(ctx, R):
                 entries.setdefault("bang", []).append(s_)
             elif lab.startswith("SW[DISCR(Iterator::position([T]::iter(CONST:HEARTS),CLOSURE))]=1"):
                 entries.setdefault("heart", []).append(s_)
+    # dot characters: they never change the parser state (counted before the area began, ignored after)
+    for gb in sorted(M.loop):
+        tt = b.blocks[gb]["term"]
+        if tt["k"] == "switch":
+            for s_ in cfg.succ[gb]:
+                lab = ev0.generic_edge(gb, tt, s_) or ""
+                if lab.startswith("BR[str::contains(K'.") and lab.endswith("=1") and C in lab:
+                    entries.setdefault("dots", []).append(s_)
+    if R.anchor(len(entries.get("dots", [])) == 1 and T.state is not None, "tree:entry:dots", "the branch that handles dot characters, and the parser's state variable"):
+        rows = {(tuple(g for g in gs if "STATE" in g), tuple(e for e in es if e.startswith("STATE") or "AREA" in e or "LEAF" in e)) for gs, es in tree_effects(M, T, entries["dots"][0], [M.head])}
+        wantd = {(("EQ[K0,STATE]=1",), ("STATE:=STATE",)), (("EQ[K0,STATE]=0",), ("STATE:=STATE",))}
+        R.check(rows == wantd, "tree:dots", "a dot or ellipsis leaves the parser state, the trees and the cursors as they are (before the area: counted; after it began: ignored)", None, {"unexpected": sorted(map(str, rows - wantd)), "missing": sorted(map(str, wantd - rows))})
     tables = {}
     for h in ("question", "bang", "heart"):
         if not R.anchor(len(entries.get(h, [])) == 1, "tree:entry:" + h, "the branch of the area state that handles %s" % h):
@@ -718,3 +730,11 @@ def rule_listing_total(ctx, R):
 
 
 RULES.append(("C04.LISTING", "`hyeong check` lists any parse result without crashing (empty listings, multi-line files): panic audit below check::run", rule_listing_total))
+
+
+def rule_render(ctx, R):
+    from . import p_c08
+    return p_c08.rule_render(ctx, R)
+
+
+RULES.append(("C04.RENDER", "what the parser built is shown faithfully: decision tables of the Debug and Display renderings of an area tree (shared with C08)", rule_render))
